@@ -102,7 +102,7 @@ class Run:
         if canary:      # a canary only has to fail: small budget, no retries, no models
             res = solve.discharge(eng.vcs, axioms, budget_s=min(unit.budget or self.budget, 6), nproc=self.nproc, pins=None, want=None, retry_factor=1)
         else:
-            res = solve.discharge(eng.vcs, axioms, budget_s=unit.budget or self.budget, nproc=self.nproc,
+            res = solve.discharge(eng.vcs, axioms, budget_s=max(unit.budget or 0, self.budget), nproc=self.nproc,
                                   pins=pins or None, want=want or None)
         out = []
         for vc, r in zip(eng.vcs, res):
@@ -172,6 +172,9 @@ class Run:
                 cur['secs'] = round((cur['secs'] or 0) + (r.get('secs') or 0), 3)
                 if not ok and cur['status'] == 'discharged':
                     cur['status'] = r['status']
+            if (r.get('secs') or 0) > 4 and (r.get('secs') or 0) >= self.obls[oid].get('slow_secs', 0):
+                self.obls[oid]['slow_secs'] = r.get('secs')
+                self.obls[oid]['ladder'] = ['%s:%s@%s' % (t_[0], t_[1], t_[2]) for t_ in (r.get('tried') or [])][:14]
             if not ok:
                 self.failed.append({'oid': oid, 'unit': unit.name, 'status': r['status'], 'model': r.get('model'),
                                     'pin': r.get('pin'), 'tried': r.get('tried'), 'goal': str(vc.goal)[:600], 'note': vc.note,
@@ -418,7 +421,7 @@ class Run:
             'discharged_by_backend': by, 'solver_seconds': round(self.solver_secs, 2),
             'bounded': self.bounded_res, 'bounded_note': 'bounded stand-ins are run-time contracts on the real code over a stated finite scope; never counted in `discharged`',
             'lemmas': self.lemmas, 'canaries': self.canaries, 'phase_seconds': self.phase,
-            'slowest_obligations': sorted([(round((o.get('secs') or 0) / max(1, o.get('paths', 1)), 2), k, o.get('by')) for k, o in self.obls.items()], reverse=True)[:8],
+            'slowest_obligations': sorted([(round((o.get('secs') or 0) / max(1, o.get('paths', 1)), 2), k, o.get('by'), o.get('ladder') or []) for k, o in self.obls.items()], key=lambda t_: -t_[0])[:8],
             'traces_validated_against_impl': bounded_cases,
             'evaluations': max(1, n_obl + bounded_cases), 'distinct_nontrivial': max(2, n_dis + sum(b.get('distinct', b.get('checked', 0)) for b in self.bounded_res)),
             'rule': 'obligations are distinct ids generated from the current source; bounded cases are distinct inputs satisfying the contract precondition',
